@@ -7,8 +7,8 @@ independently of pharmpy.
 
   bounded_abbreviated_code   NM-TRAN abbreviated code ($PRED) -> statements        (C01)
   bounded_omega_theta_parse  $THETA/$OMEGA/$SIGMA -> parameters, random variables (C01)
-  bounded_advan_trans        $SUBROUTINE ADVANn TRANSm -> compartmental system     (C01)
-  bounded_codegen_roundtrip  transformed model -> NONMEM code -> model             (C02)
+  bounded_advan_trans        $SUBROUTINE ADVANn TRANSm, $MODEL/$DES -> compartmental system (C01)
+  bounded_codegen_roundtrip  transformed model -> NONMEM code (+ data set) -> model (C02)
 """
 
 import cmath
@@ -2281,7 +2281,8 @@ def bounded_advan_trans(tier='quick'):
 
     def size(c):
         if 'des' in c:
-            return (True, True, True, 99, len(c['transfers']), c['zo'], str(c))
+            nterms = sum(len(_DES_FORMS[f][0]) + len(_DES_FORMS[f][1]) for f in c['transfers'] + [c['elim']])
+            return (True, True, True, 99, len(c['transfers']), c['zo'], nterms, str(c))
         return (c['data'] != 'nodata', c['attr'] != 'none', c['scale'] != 'none', c['advan'], c['trans'])
 
     also = _Also()
@@ -2342,7 +2343,6 @@ FID_UPDATE_STATEMENTS = CODE_RECORD + ':CodeRecord.update_statements'
 FID_UPDATE_LAG = 'src/pharmpy/model/external/nonmem/update.py:update_lag_time'
 FID_UPDATE_BIO = 'src/pharmpy/model/external/nonmem/update.py:update_bio'
 FID_UPDATE_INFUSION = 'src/pharmpy/model/external/nonmem/update.py:update_infusion'
-FID_PK_CONVERSION = 'src/pharmpy/model/external/nonmem/update.py:pk_param_conversion'
 
 
 def _transformations():
@@ -2528,10 +2528,9 @@ def _dose_kind(d):
 
 
 def _reserved_diffs(model, code):
-    """-> list of (what, detail): reserved parameters ALAGn, Fn, Dn, Rn, Sn assigned in $PK of the generated code
-    vs. the ones the compartments of the in-memory model imply"""
-    import sympy
-
+    """-> list of (what, detail): reserved parameters ALAGn, Fn, Dn, Rn assigned in $PK of the generated code vs.
+    the ones the dosed compartments of the in-memory model imply (the scale parameter Sn is covered numerically
+    by the comparison of the dependent variables)"""
     odes = model.statements.ode_system
     if odes is None:
         return []
@@ -2563,30 +2562,17 @@ def _reserved_diffs(model, code):
             else:
                 unnumbered = True
     out = []
-    for what, pre in (('res_lag', 'ALAG'), ('res_bio', 'F'), ('res_dose', 'D'), ('res_dose', 'R')):
+    for what, pre in (('lag', 'ALAG'), ('bio', 'F'), ('dose', 'D'), ('dose', 'R')):
         have = sorted(int(a[len(pre):]) for a in assigned if re.fullmatch(pre + r'\d+', a))
         for n, why in sorted(implied[pre].items()):
             if n not in have:
-                out.append((what, f'{why}, $PK assigns {[pre + str(k) for k in have] or "no " + pre + "n"}'))
+                out.append(('res_' + what, f'{why}, $PK assigns {[pre + str(k) for k in have] or "no " + pre + "n"}'))
         if not unnumbered:
             for n in have:
                 if n not in implied[pre] and n in dosed:
-                    out.append((what, f'$PK assigns {pre}{n}, the doses into compartment {n} of the generated code have '
-                                f'no such property in the model (implied: {[pre + str(k) for k in sorted(implied[pre])]})'))
-    # scale of the observed (central) compartment
-    f = model.statements.after_odes.find_assignment('F')
-    central = odes.central_compartment
-    if f is not None and central.name in num:
-        e = sympy.sympify(f.expression)
-        numer, den = e.as_numer_denom()
-        if numer == sympy.sympify(central.amount) and (den == 1 or den.is_Symbol):
-            sname = f'S{num[central.name]}'
-            if den != 1 and sname not in assigned:
-                out.append(('res_scale', f'F = {e} in the model, central compartment {central.name} has number '
-                            f'{num[central.name]} in the generated code, $PK assigns '
-                            f'{[a for a in assigned if re.fullmatch(r"S(C|[0-9]+)", a)]}'))
-            if den == 1 and sname in assigned:
-                out.append(('res_scale', f'F = {e} (unscaled) in the model, $PK assigns {sname}'))
+                    out.append(('only_' + what, f'$PK assigns {pre}{n}, the doses into compartment {n} of the generated '
+                                f'code have no such property in the model (implied: '
+                                f'{[pre + str(k) for k in sorted(implied[pre])]})'))
     return out
 
 
@@ -2793,15 +2779,20 @@ _RT_CLAUSE = {
     'bio': (FID_UPDATE_ODE, 'the generated Fn gives every compartment the bioavailability of the model'),
     'dvs': (FID_UPDATE_SOURCE, 'the dependent variables (Y) of the generated code have numerically the '
             'values of the model for equal parameters, etas, epsilons, data and amounts'),
-    'res_lag': (FID_UPDATE_LAG, 'the generated $PK assigns the reserved parameter ALAGn exactly for the dosed '
-                'compartments n (numbering of the generated code) that have a lag time in the model'),
-    'res_bio': (FID_UPDATE_BIO, 'the generated $PK assigns the reserved parameter Fn exactly for the dosed compartments '
-                'n (numbering of the generated code) whose bioavailability is not 1 in the model'),
-    'res_dose': (FID_UPDATE_INFUSION, 'the generated $PK assigns the reserved parameters Dn / Rn exactly for the '
-                 'dosed compartments n (numbering of the generated code) whose dose is an infusion with modelled '
-                 'duration / rate in the model'),
-    'res_scale': (FID_PK_CONVERSION, 'the generated $PK assigns the scale parameter Sn of the central compartment '
-                  '(numbering of the generated code) exactly if F is the scaled central amount in the model'),
+    'res_lag': (FID_UPDATE_LAG, 'the generated $PK assigns the reserved parameter ALAGn for every dosed compartment n '
+                '(numbering of the generated code) that has a lag time in the model'),
+    'only_lag': (FID_UPDATE_LAG, 'the generated $PK assigns the reserved parameter ALAGn of a dosed compartment n '
+                 '(numbering of the generated code) only if that compartment has a lag time in the model'),
+    'res_bio': (FID_UPDATE_BIO, 'the generated $PK assigns the reserved parameter Fn for every dosed compartment n '
+                '(numbering of the generated code) whose bioavailability is not 1 in the model'),
+    'only_bio': (FID_UPDATE_BIO, 'the generated $PK assigns the reserved parameter Fn of a dosed compartment n '
+                 '(numbering of the generated code) only if the bioavailability of that compartment is not 1 in the model'),
+    'res_dose': (FID_UPDATE_INFUSION, 'the generated $PK assigns the reserved parameter Dn / Rn for every dosed '
+                 'compartment n (numbering of the generated code) whose dose is an infusion with modelled duration / '
+                 'rate in the model'),
+    'only_dose': (FID_UPDATE_INFUSION, 'the generated $PK assigns the reserved parameter Dn / Rn of a dosed compartment '
+                  'n (numbering of the generated code) only if its dose is an infusion with modelled duration / rate '
+                  'in the model'),
     'rate': (FID_UPDATE_INFUSION, 'the RATE data item of the written data set gives every dose record the kind of '
              'dose the model has (none or 0: bolus, -2: modelled duration, -1: modelled rate, >0: rate in the '
              'data) and is 0 on the other records'),
@@ -3199,7 +3190,7 @@ def bounded_codegen_roundtrip(tier='quick'):
             f'a RATE data column that is 0 on all records); every transformation twice in a row '
             f'{"from every start" if tier == "thorough" else "from pheno, add_lag_time / add_bioavailability twice in a row from every start and alternating (a ; b ; a) from pheno"} '
             f'[{len(rt_jobs)} in all]; written to disk and read back, compared '
-            f'numerically at 3 points over all compartment numberings, reserved parameters ALAGn/Fn/Dn/Rn/Sn assigned '
+            f'numerically at 3 points over all compartment numberings, reserved parameters ALAGn/Fn/Dn/Rn assigned '
             f'in the written $PK and RATE item of the written data compared with what the compartments of the model imply; printer: all {nexpr} distinct sympy '
             f'expressions from trees of depth <=2 over + - * / ** unary- exp log sqrt with operands WGT, AGE, '
             f'2, and {len(pr_cases) - nexpr} Piecewise statements (5 shapes) whose conditions are atoms, And/Or '
